@@ -417,6 +417,13 @@ def run_sched(c, P):
                             pay = list(b'lomond-lomond-lomond-lomond')
                     ws.send_binary(mk_bytes(pay))
                     sent[name].append((2, pay))
+                elif op == 'send_binary_raw':
+                    # compress=False on a connection that negotiated permessage-deflate: goes out uncompressed (RSV1 clear)
+                    pay = [c.byte('%s_r%d' % (name, i))]
+                    if c.concrete is not None and P.get('compress'):
+                        pay = list(b'raw-raw-raw-raw')
+                    ws.send_binary(mk_bytes(pay), compress=False)
+                    sent[name].append((2, pay))
                 elif op == 'send_big':
                     # a large message (more than one 64 KiB buffer): symbolic first byte, fixed pattern behind it
                     pay = [c.byte('%s_g%d' % (name, i))] + [(k * 7 + 3) & 0xFF for k in range(BIG - 1)]
